@@ -21,11 +21,18 @@ STEP_TAGS = {"KeepDelete", "RealReadFails", "CheckNotClean"}
 KD = 3600
 
 
-def to_program(rng, hist, pid, seed):
-    base = gen.rand_files(rng, rng.randint(2, 4))
-    vers = {"v1": base}
-    vers["v2"] = gen.evolve(rng, base)
-    vers["v3"] = gen.evolve(rng, vers["v2"])
+# versions for the directed histories: the root directory changes between v1 and v2, the sub-directory x does not
+DIRECTED_VERS = {"v1": {"a": ["d1"], "x/c": ["d2", "d3"], "x/y/e": ["d4"]},
+                 "v2": {"a": ["d9"], "x/c": ["d2", "d3"], "x/y/e": ["d4"]},
+                 "v3": {"a": ["d9"], "b": ["d5"], "x/c": ["d2", "d3"], "x/y/e": ["d4"]}}
+
+
+def to_program(rng, hist, pid, seed, vers=None):
+    if vers is None:
+        base = gen.rand_files(rng, rng.randint(2, 4))
+        vers = {"v1": base}
+        vers["v2"] = gen.evolve(rng, base)
+        vers["v3"] = gen.evolve(rng, vers["v2"])
     steps = []
     order = []   # snapshot creation order -> version
     for st in hist:
@@ -78,11 +85,20 @@ def run(ctx):
         except ValueError:
             return False
     h7r = [h for h in h7 if recover_shape(h)]
+    # directed: a backup through a fresh handle whose parent snapshot was written by an overlapping (stale) backup
+    # and shares an unchanged sub-directory with it
+    directed = []
+    for v, w in (("v1", "v2"), ("v1", "v3"), ("v2", "v3"), ("v1", "v1")):
+        directed.append([["backup", v], ["load"], ["forget", v], ["prune", False], ["stale", w], ["backup", w], ["prune", False]])
+        directed.append([["backup", v], ["load"], ["forget", v], ["prune", False], ["stale", w], ["backup", w], ["backup", v],
+                         ["tick"], ["prune", False]])
     if q:
         hs = rng.sample(h4, 50) + rng.sample(h5, 50) + h7r[:30]
     else:
         hs = h4 + rng.sample(h5, 1500) + h7r[:400]
     progs = [to_program(rng, h, "c02-%d-%d" % (ctx.seed, i), ctx.seed * 100000 + i) for i, h in enumerate(hs)]
+    progs += [to_program(rng, h, "c02-%d-d%d" % (ctx.seed, i), ctx.seed * 100000 + 90000 + i, vers=DIRECTED_VERS)
+              for i, h in enumerate(directed)]
     by_id = {p["id"]: p for p in progs}
     recs, r = run_trace(ctx, progs, "main", timeout=6000)
     ctx.traces += len(progs)
